@@ -15,7 +15,7 @@ TReset == /\ Is("Reset")
           /\ H' = SetOf(E.H) /\ L' = SetOf(E.L)
           /\ phase' = "cfg" /\ served' = "none"
           /\ unified' = E.unifier /\ D' = SetOf(E.D)
-          /\ l' = l + 1 /\ scn' = [route |-> E.route]    \* Answer looks at the route family
+          /\ l' = l + 1 /\ scn' = [route |-> E.route, spelling |-> E.spelling]    \* Answer looks at the route family and the spelling
 TSend == Is("ClientSend") /\ Send /\ Consume
 TBackendRecv == Is("BackendRecv") /\ Dispatch(E.e) /\ Consume
 TClientDone == Is("ClientDone") /\ Answer(E.st, E.hs, E.hd) /\ Consume
